@@ -130,6 +130,12 @@ def build(idx, sym, spec, m=None, top=True):
             for r in reps:
                 one('ReplaceSource::<%s>::replace_with_enforce' % ity, [obj, IntV(r['_start'], 'u32'), IntV(r['_end'], 'u32'), mkstr(r['content']),
                                                                       none() if r.get('name') is None else some(mkstr(r['name'])), Enum('ReplacementEnforce', r.get('enforce', 1), {})])
+                for h in r.get('then', []):        # observers between the mutating calls
+                    if h == 'hash':
+                        from msx.textmodel import HasherV
+                        one('<ReplaceSource<%s> as Hash>::hash::<HasherV>' % ity, [obj, Ref(Cell(HasherV()))])
+                    else:
+                        one('<ReplaceSource<%s> as Source>::%s' % (ity, h), [obj])
             return deref(obj), out
         return None, out
     else:
@@ -420,6 +426,13 @@ def flatten(spec):
 def alt_of(spec, alt):
     if alt == 'flat': return flatten(spec)
     if alt == 'same': return spec
+    if alt == 'noempty':
+        def strip(sp):
+            o = dict(sp)
+            if 'children' in sp: o['children'] = [strip(c) for c in sp['children'] if text_len(c) > 0]
+            if 'inner' in sp: o['inner'] = strip(sp['inner'])
+            return o
+        return strip(spec)
     if alt == 'uncached':
         def strip(sp):
             if sp['kind'] == 'cached': return strip(sp['inner'])
